@@ -77,7 +77,7 @@ impl Property for C11 {
         "exploration"
     }
     fn rule(&self) -> &'static str {
-        "A scenario = a list of up to 20 generated records - 80..220 in one scenario of ten - (some of them redeliveries of an earlier record in a fresh, value-preserving spelling, some an earlier record with its object members in another order) x a stateless pipeline (--set, --split-by, --filter, --select; generated templates, documented examples, regex functions with patterns taken from the records; no & selectors) x an output style x a regex cache size in {0,1,2,64} that is the same in all runs of the scenario. Record-level transport events applied by the harness: restart of the consumer at a record boundary k (run on A[..k], then on A[k..]), redelivery and reordering (a seeded plan pi with repetitions and drops). Oracle, all from executions of the same build: H = stdout on the empty stream, body(r) = stdout on [r] minus H; stdout(A) = H + sum body(r_i) (solo-sum); stdout(A[..k]) + body part of stdout(A[k..]) = stdout(A) (restart); stdout(pi(A)) = H + sum body(r_pi(j)) (redelivery); two spellings of the same record have the same body (spelling). Comparisons are on whole byte strings. evaluations = jawk executions; non-trivial = at least 2 records and a transport event (cut strictly inside the list, or a plan that is not the identity); distinct = distinct abstract traces."
+        "A scenario = a list of up to 20 generated records - 80..220 in one scenario of ten - (some of them redeliveries of an earlier record in a fresh, value-preserving spelling, some an earlier record with its object members in another order) x a stateless pipeline (--set, --split-by, --filter, --select; generated templates, documented examples, regex functions with patterns taken from the records; no & selectors) x an output style x a regex cache size in {0,1,2,64} that is the same in all runs of the scenario. Record-level transport events applied by the harness: restart of the consumer at a record boundary k (run on A[..k], then on A[k..]), redelivery and reordering (a seeded plan pi with repetitions and drops). Oracle, all from executions of the same build: H = stdout on the empty stream, body(r) = stdout on [r] minus H; stdout(A) = H + sum body(r_i) (solo-sum); stdout(A[..k]) + body part of stdout(A[k..]) = stdout(A) (restart); stdout(pi(A)) = H + sum body(r_pi(j)) (redelivery); two spellings of the same record have the same body (spelling). Comparisons are on whole byte strings. evaluations = jawk executions; non-trivial = at least 2 records and a transport event (cut strictly inside the list, or a plan that is not the identity); distinct = distinct abstract traces. Round 7: look-alike clusters (a base object and variants whose tokens, read without brackets, coincide or differ in one leaf) under ordering/comparing expressions, each run in a thread of its own (as one scenario in six is anyway: isolated_runs); one scenario in a hundred has a record of 1.1..2.4 MiB among ordinary ones; macros that call a macro bound by their caller via define."
     }
     fn assumptions(&self) -> Vec<String> {
         vec![
